@@ -23,7 +23,6 @@ import (
 	"bytes"
 	"context"
 	"encoding/json"
-	"errors"
 	"flag"
 	"fmt"
 	"io"
@@ -219,6 +218,11 @@ func legVirtualOS(path string) []any {
 				byName[t] = m
 			}
 			v := ros.NewVirtualOS(context.Background(), ros.WithMounts(mounts), ros.WithCwd(locString(cwd)))
+			if len(cwd) > 0 && (len(path)+mi)%2 == 0 {
+				// the same working directory reached by a RELATIVE change of directory from its parent
+				v = ros.NewVirtualOS(context.Background(), ros.WithMounts(mounts), ros.WithCwd(locString(cwd[:len(cwd)-1])))
+				_ = v.Chdir(cwd[len(cwd)-1])
+			}
 			groups := map[string]N{}
 			counts := map[string]int{}
 			order := []string{}
@@ -860,9 +864,7 @@ var fsOps = []fsOp{
 	{"mk", func(w *world, f *localfs.Filesystem, p string, o *fsObs) error { return f.Mkdir(p, 0o755) }},
 	{"ma", func(w *world, f *localfs.Filesystem, p string, o *fsObs) error { return f.MkdirAll(p, 0o755) }},
 	{"mt", func(w *world, f *localfs.Filesystem, p string, o *fsObs) error {
-		if p == "" { // Go convention: "" means the default temporary directory (not a path)
-			return errors.New("skipped")
-		}
+		// ("" is the base of a rooted filesystem like anywhere else - not Go's "default temporary directory")
 		_, err := f.MkdirTemp(p, "mt")
 		return err
 	}},
@@ -892,17 +894,19 @@ func legLocalFS(w *world, path string) []any {
 		}
 		systems = append(systems, fsys)
 		if relBase {
-			rfs, err := localfs.New(context.Background(), localfs.WithBase(relSpellings[(bi+len(path))%len(relSpellings)]))
-			if err != nil {
-				die("localfs.New (relative base): %v", err)
-			}
-			systems = append(systems, rfs)
+			systems = append(systems, nil) // made below, from INSIDE the base directory: a relative base denotes the
+			// directory it names when the filesystem is created
 		}
 		for si, fsys := range systems {
 			if si == 1 {
 				if err := os.Chdir(host); err != nil {
 					die("chdir %s: %v", host, err)
 				}
+				rfs, err := localfs.New(context.Background(), localfs.WithBase(relSpellings[(bi+len(path))%len(relSpellings)]))
+				if err != nil {
+					die("localfs.New (relative base): %v", err)
+				}
+				fsys = rfs
 			}
 			for _, op := range fsOps {
 				if si == 1 && !readOnlyOps[op.code] {
